@@ -12,4 +12,16 @@ META = {
         "note": "Trusted: Lean kernel; propext/Classical.choice/Quot.sound; one bv_decide native axiom for the zig-zag leaf lemmas; the correspondence harness and generators; Rust integer/Vec semantics as modelled. Not yet modelled: dictionary, bitvec, codec selector, property-column compression, adjacency chunks, succinct structures (correspondence/theorems to be added).",
         "technique": "Lean 4 proof (induction, base-2^b digit argument) + differential correspondence of model vs implementation",
     },
+    "C03": {
+        "text": "Machine-checked Lean 4 theorems over ALL histories of begin/write/read/commit/abort/gc (any number of transactions and entities, gc at any point): an inductive invariant of the manager model (retention of every committed transaction an active one may still conflict with) gives first-committer-wins safety, no false refusal (every WriteConflict has an overlapping committed writer as its cause), unique strictly increasing commit epochs, and gc-before-commit transparency; the model is tied to TransactionManager by running both on generated histories and comparing every return value and observer.",
+        "design_ref": "DESIGN.md 7 C03",
+        "note": "Trusted: Lean kernel + 3 standard axioms; correspondence harness; commit's atomicity under the transactions write lock (single-threaded histories here; threads in C20). gc transparency for gc placed anywhere in a history is checked against a gc-free specification run, proved only for gc immediately before a commit. Session level (sessions never call record_write) is not yet streamed.",
+        "technique": "Lean 4 proof (inductive invariant over operation histories, ghost log) + differential correspondence with the real TransactionManager",
+    },
+    "C04": {
+        "text": "Machine-checked Lean 4 theorems over ALL histories: every committed Serializable transaction's reads were not overwritten between its start and its commit (so commit order is an equivalent serial order), write skew between two Serializable transactions is impossible, non-overlapping transactions are never refused; 'read-only transactions are never refused' is refuted by a witness theorem and listed as a known finding. Tied to the code by the same correspondence stream as C03.",
+        "design_ref": "DESIGN.md 7 C04",
+        "note": "Trusted: as C03. Reads/writes are those recorded through record_read/record_write.",
+        "technique": "Lean 4 proof (invariant: SSI validation + retention) + differential correspondence",
+    },
 }
